@@ -31,9 +31,13 @@ DeclInvalid == {"tmpl-foreign-param", "tmpl-undeclared-param", "tmpl-foreign-in-
 \* argument, too many arguments to size) in any position makes the whole declaration illegal
 GenericImplied == {<<k, w>> : k \in 1..3, w \in {"unknown-argument", "too-many-arguments"}}
 GenericName(p) == "generic-implied:" \o p[2] \o ":entry" \o (CASE p[1] = 1 -> "1" [] p[1] = 2 -> "2" [] p[1] = 3 -> "3")
-YamlValid == DeclValid \cup {"generic-implied:legal"} \cup {"minimal", "empty-block", "class-with-method", "namespace-decl", "language-c", "language-cxx",
+PairA == {"tmpl2", "tmpl1", "generic", "class"}
+PairB == {"uninstT", "uninstU", "unknown"}
+PairInvalid == {"pair:" \o a \o ":" \o b \o ":" \o o : a \in PairA, b \in PairB, o \in {"ab", "ba"}}
+PairValid == {"pairok:" \o a \o ":" \o b : a \in PairA, b \in PairA}
+YamlValid == DeclValid \cup PairValid \cup {"generic-implied:legal"} \cup {"minimal", "empty-block", "class-with-method", "namespace-decl", "language-c", "language-cxx",
               "template-list", "generic-list", "default-arg-suffix-list"}
-YamlInvalid == DeclInvalid \cup {GenericName(p) : p \in GenericImplied} \cup {"language-fortran", "decl-entry-without-decl", "cxx_template-not-list", "fortran_generic-not-list",
+YamlInvalid == DeclInvalid \cup PairInvalid \cup {GenericName(p) : p \in GenericImplied} \cup {"language-fortran", "decl-entry-without-decl", "cxx_template-not-list", "fortran_generic-not-list",
                 "default_arg_suffix-not-list", "declarations-not-list", "decl-not-string", "options-not-mapping",
                 "format-not-mapping", "attrs-not-mapping", "class-decl-with-body", "unknown-top-level-type"}
 
